@@ -4,6 +4,8 @@ import (
 	"fmt"
 	"go/token"
 	"go/types"
+	"sort"
+	"strings"
 
 	"golang.org/x/tools/go/ssa"
 )
@@ -110,7 +112,16 @@ func (e *Engine) execFrom(act *Activation, p *Path, blk *ssa.BasicBlock, start i
 			e.push(act, p, blk, blk.Succs[0])
 			return
 		case *ssa.If:
-			c := asTerm(e.val(p, x.Cond))
+			var c *Term
+			if u, isU := e.val(p, x.Cond).(Undef); isU && strings.Contains(u.why, "float") {
+				// a condition computed from a value the engine does not model (floating point on symbolic
+				// operands): unconstrained, both sides are explored
+				e.nPoison++
+				c = e.Var(fmt.Sprintf("havoc%d", e.nPoison), 0)
+				e.used("branch on an unmodelled (floating-point) value: both sides explored (" + u.why + ")")
+			} else {
+				c = asTerm(e.val(p, x.Cond))
+			}
 			if c.IsConst() {
 				if c.IsTrue() {
 					e.push(act, p, blk, blk.Succs[0])
@@ -172,6 +183,38 @@ func (e *Engine) execFrom(act *Activation, p *Path, blk *ssa.BasicBlock, start i
 				e.execFrom(act, paths[k], blk, i+1)
 			}
 			p = paths[0]
+		case *ssa.MakeSlice:
+			ln, cp := asTerm(e.val(p, x.Len)), asTerm(e.val(p, x.Cap))
+			if ln.IsConst() && cp.IsConst() {
+				if !e.execSimple(act, p, in) {
+					return
+				}
+				continue
+			}
+			// symbolic size: split the path over the values it can take
+			alts := e.splitOnValues(p, ln)
+			var all []*Path
+			for _, a := range alts {
+				c2 := cp
+				if cp == ln {
+					c2 = e.Const(64, a.v)
+				}
+				if c2.IsConst() {
+					a.p.regs[x.Len], a.p.regs[x.Cap] = e.Const(ln.w, a.v), c2
+					all = append(all, a.p)
+					continue
+				}
+				for _, b := range e.splitOnValues(a.p, c2) {
+					b.p.regs[x.Len], b.p.regs[x.Cap] = e.Const(ln.w, a.v), e.Const(c2.w, b.v)
+					all = append(all, b.p)
+				}
+			}
+			for _, q := range all {
+				// x.Len / x.Cap may be constants in the SSA: the overriding values are read through regs first
+				e.makeSliceConcrete(act, q, x)
+				e.execFrom(act, q, blk, i+1)
+			}
+			return
 		case *ssa.Call, *ssa.Next, *ssa.UnOp:
 			var rs []Result
 			if u, ok := x.(*ssa.UnOp); ok {
@@ -1186,4 +1229,57 @@ func (e *Engine) arrTargets(st *State, pt Ptr) []arrTarget {
 		}
 	}
 	return out
+}
+
+type valAlt struct {
+	p *Path
+	v uint64
+}
+
+// splitOnValues forks p over the feasible concrete values of t (bounded enumeration by the solver)
+func (e *Engine) splitOnValues(p *Path, t *Term) []valAlt {
+	if t.IsConst() {
+		return []valAlt{{p, t.val}}
+	}
+	seen := map[uint64]bool{}
+	budget := 4096
+	var vals []uint64
+	if iteLeaves(t, seen, &budget) && len(seen) <= 64 {
+		for v := range seen {
+			vals = append(vals, v)
+		}
+	} else {
+		var complete bool
+		vals, complete = e.sol.Enumerate(e.TB, p.st.G, t, 64, e.feasMs)
+		if !complete {
+			unsup("symbolic size with too many (or undecided) values")
+		}
+	}
+	sort.Slice(vals, func(a, b int) bool { return vals[a] < vals[b] })
+	var out []valAlt
+	for _, v := range vals {
+		c := e.Eq(t, e.Const(t.w, v))
+		if !e.feasible(p.st.G, c) {
+			continue
+		}
+		q := e.clonePath(p)
+		e.nForks++
+		q.st.G = e.And(q.st.G, c)
+		out = append(out, valAlt{q, v})
+	}
+	return out
+}
+
+func (e *Engine) makeSliceConcrete(act *Activation, p *Path, x *ssa.MakeSlice) {
+	ln, cp := asTerm(p.regs[x.Len]), asTerm(p.regs[x.Cap])
+	if int64(ln.val) < 0 || ln.val > cp.val {
+		e.panicOutcome(p, e.True, "makeslice: len out of range")
+		p.st.G = e.False
+		return
+	}
+	if cp.val > 1<<24 {
+		unsup("huge make")
+	}
+	et := x.Type().Underlying().(*types.Slice).Elem()
+	p.regs[x] = e.makeSlice(p.st, et, int(ln.val), int(cp.val))
 }
